@@ -187,10 +187,7 @@ impl Handler for H {
                     {
                         // the error path drops the index writer, which joins its workers: let them go
                         let mut st = self.st.lock().unwrap();
-                        if st.controlled {
-                            st.controlled = false;
-                            st.taint.push("released-by-injected-failure".into());
-                        }
+                        st.controlled = false;
                         for g in st.go.iter_mut() {
                             *g = true;
                         }
